@@ -193,6 +193,27 @@ impl AsyncSeek for PollReader {
             self.seek_to = None;
             self.pos = t;
             self.window_end = t;
+        } else {
+            // no seek in progress: a source may still have an earlier operation in flight (tokio's
+            // File answers Pending here until it is idle), so this poll may pend once as well
+            let pending = match &self.mode {
+                PollMode::Choose => {
+                    if self.last_pending {
+                        false
+                    } else {
+                        let ch = self.ch.as_ref().expect("chooser");
+                        ch.dev("env.poll_complete_idle", 2) == 1
+                    }
+                }
+                PollMode::PendingEvery | PollMode::Irregular => !self.last_pending,
+                _ => false,
+            };
+            if pending {
+                self.last_pending = true;
+                cx.waker().wake_by_ref();
+                return Poll::Pending;
+            }
+            self.last_pending = false;
         }
         Poll::Ready(Ok(self.pos as u64))
     }
